@@ -161,11 +161,11 @@ impl crate::platform::Arch for ElfX86_64 {
         match relocation_kind {
             object::elf::R_X86_64_REX_GOTPCRELX | object::elf::R_X86_64_CODE_4_GOTPCRELX
                 if (relocation_kind == object::elf::R_X86_64_CODE_4_GOTPCRELX
-                    && (offset >= 4 && section_bytes[offset - 4] == 0xd5))
+                    && (offset >= 4 && section_bytes.get(offset - 4) == Some(&0xd5)))
                     || offset >= 3 =>
             {
-                let b1 = section_bytes[offset - 2];
-                let rex = section_bytes[offset - 3];
+                let b1 = *section_bytes.get(offset - 2)?;
+                let rex = *section_bytes.get(offset - 3)?;
 
                 // REX prefixed instruction with W=1, R=0/1, X=0, B=0
                 if rex != 0x48 && rex != 0x4c {
@@ -220,7 +220,7 @@ impl crate::platform::Arch for ElfX86_64 {
                 }
             }
             object::elf::R_X86_64_GOTPCRELX => {
-                match section_bytes.get(offset - 2)? {
+                match section_bytes.get(offset.checked_sub(2)?)? {
                     // mov *x(%rip), reg
                     0x8b => {
                         if is_absolute || is_absolute_address {
@@ -284,7 +284,7 @@ impl crate::platform::Arch for ElfX86_64 {
                 if output_kind.is_executable()
                     && !interposable
                     && ((relocation_kind == object::elf::R_X86_64_CODE_4_GOTTPOFF
-                        && (offset >= 4 && section_bytes[offset - 4] == 0xd5))
+                        && (offset >= 4 && section_bytes.get(offset - 4) == Some(&0xd5)))
                         || offset >= 3) =>
             {
                 let inst_offset = if relocation_kind == object::elf::R_X86_64_GOTTPOFF {
@@ -370,7 +370,7 @@ impl crate::platform::Arch for ElfX86_64 {
             }
             object::elf::R_X86_64_TLSLD if output_kind.is_executable() => {
                 // lea    0x0(%rip),%rdi
-                if section_bytes.get(offset - 3..offset)? == [0x48, 0x8d, 0x3d] {
+                if section_bytes.get(offset.checked_sub(3)?..offset)? == [0x48, 0x8d, 0x3d] {
                     match section_bytes.get(offset + 4..offset + 6) {
                         // PC-relative direct call
                         Some(&[0xe8, _]) => {
@@ -406,7 +406,7 @@ impl crate::platform::Arch for ElfX86_64 {
                 if !interposable
                     && output_kind.is_executable()
                     && ((relocation_kind == object::elf::R_X86_64_CODE_4_GOTPC32_TLSDESC
-                        && (offset >= 4 && section_bytes[offset - 4] == 0xd5))
+                        && (offset >= 4 && section_bytes.get(offset - 4) == Some(&0xd5)))
                         || offset >= 3) =>
             {
                 // We require that the instruction that this relocation applies to is a LEA
@@ -431,7 +431,7 @@ impl crate::platform::Arch for ElfX86_64 {
             object::elf::R_X86_64_GOTPC32_TLSDESC if output_kind.is_executable() => {
                 // We require that the instruction that this relocation applies to is a LEA
                 // instruction.
-                let bytes = section_bytes.get(offset - 3..offset - 1);
+                let bytes = section_bytes.get(offset.checked_sub(3)?..offset - 1);
                 if bytes == Some(&[0x48, 0x8d]) || bytes == Some(&[0x4c, 0x8d]) {
                     return Some(Relaxation {
                         kind: RelaxationKind::TlsDescToInitialExec,
@@ -507,7 +507,10 @@ impl TlsGdForm {
     fn identify(bytes: &[u8], offset: usize) -> Option<Self> {
         // data16 lea 0x0(%rip),%rdi
         // data16 data16 rex.W call {relative function offset}
-        if bytes.get(offset - 4..offset) == Some(&[0x66, 0x48, 0x8d, 0x3d])
+        // The bytes of the `len` byte instruction prefix that ends where the relocation starts.
+        let before = |len: usize| bytes.get(offset.checked_sub(len)?..offset);
+
+        if before(4) == Some(&[0x66, 0x48, 0x8d, 0x3d])
             && bytes.get(offset + 4..offset + 8) == Some(&[0x66, 0x66, 0x48, 0xe8])
         {
             return Some(Self::Regular);
@@ -517,7 +520,7 @@ impl TlsGdForm {
         // movabs $X,%rax
         // TODO: This branch is not currently exercised by our tests. Add a test and document the
         // third instruction.
-        if bytes.get(offset - 3..offset) == Some(&[0x48, 0x8d, 0x3d])
+        if before(3) == Some(&[0x48, 0x8d, 0x3d])
             && bytes.get(offset + 4..offset + 6) == Some(&[0x48, 0xb8])
             && bytes.get(offset + 14..offset + 19) == Some(&[0x48, 0x01, 0xd8, 0xff, 0xd0])
         {
